@@ -2,6 +2,7 @@
 from __future__ import annotations
 
 import ast
+import re
 
 from ..core.pyeval import PyEval, show
 from ..core.pyfacts import PyRepo
@@ -102,6 +103,46 @@ def rewrite_event(ctx, py: PyRepo):
                     (('call', ('attr', SELF, 'load_axiom'), (('attr', ('param', 'rule'), 'pattern'),), ()), ('param', 'substitution')), ())
             ctx.ob('rewrite-typestate', f'proof-is-instantiated-axiom/path{i}', pv == want,
                    f'the proof registered is {show(pv) if pv else None}; expected the rule axiom instantiated with the same substitution', where)
+    # the rule whose axiom the proof loads is declared as an axiom of the module in the same step (load_axiom refuses undeclared
+    # ones - and the claim could not be proved from another module's axioms): on every returning path `add_axiom(rule.pattern)` is
+    # reached (directly or through the assumptions helper) before the proof is registered
+    RULE_AX = ('attr', ('param', 'rule'), 'pattern')
+    full = PyEval(resolver=lambda call, env, _ev: (
+        (ci.methods[call.func.attr], SELF) if isinstance(call.func, ast.Attribute) and isinstance(call.func.value, ast.Name)
+        and env.get(call.func.value.id) == SELF and call.func.attr in KEEP and call.func.attr in ci.methods else resolver(call, env, _ev)))
+    for i, p in enumerate([q for q in full.paths(fn) if q.end[0] == 'return']):
+        order = [(k, e.value) for k, e in enumerate(p.events) if e.kind == 'ecall' and e.value[1][0] == 'attr' and e.value[1][1] == SELF]
+        decl = [k for k, v in order if v[1][2] == 'add_axiom' and tuple(v[2]) == (RULE_AX,)]
+        reg = [k for k, v in order if v[1][2] == 'add_proof_expression']
+        ctx.ob('rewrite-typestate', f'rule-axiom-declared/path{i}', bool(decl) and bool(reg) and min(decl) < min(reg),
+               'the rewrite rule whose axiom the step loads must be added to the module (`add_axiom(rule.pattern)`) before the proof is '
+               'registered', where)
+    # every hint of the trace becomes one step, in order: the loop over the hints calls rewrite_event(hint.axiom, hint.substitutions)
+    # exactly once on every path that does not raise, on the ONE proof expression created from the first hint's configuration
+    fh = ci.methods.get('from_proof_hints')
+    if fh is not None:
+        from ..core import astpaths as AP
+        loops = [x for x in fh.body if isinstance(x, ast.For) and isinstance(x.target, ast.Name)]
+        ok_fh, why_fh = len(loops) == 1, 'the loop over the hints was not found'
+        if ok_fh:
+            h = loops[0].target.id
+            for sp in AP.paths(loops[0].body):
+                if sp.end == 'raise':
+                    continue
+                calls = [c for a in sp.actions for c in ast.walk(a) if isinstance(c, ast.Call) and isinstance(c.func, ast.Attribute)
+                         and c.func.attr == 'rewrite_event']
+                if len(calls) != 1 or [ast.unparse(a) for a in calls[0].args] != [f'{h}.axiom', f'{h}.substitutions'] or calls[0].keywords:
+                    ok_fh, why_fh = False, 'a hint is passed over (or replayed with other arguments than its own rule and substitution)'
+                makes = [a for a in sp.actions if isinstance(a, (ast.Assign, ast.AnnAssign)) and a.value is not None and isinstance(a.value, ast.Call)
+                         and ast.unparse(a.value.func) == ci.name]
+                first = sp.holds(f'{ast.unparse(calls[0].func.value)} is None') if calls else None
+                if makes and (first is not True or [ast.unparse(x) for x in makes[0].value.args][1:] != [f'{h}.configuration_before']):
+                    ok_fh, why_fh = False, 'the proof expression is re-created after the first hint, or not started at the first hint\'s configuration'
+                if not makes and first is True:
+                    ok_fh, why_fh = False, 'no proof expression is created for the first hint'
+        ctx.ob('rewrite-typestate', 'every-hint-becomes-a-step', ok_fh,
+               f'from_proof_hints: {why_fh} - the module must claim the instantiated rewrite of EVERY step of the trace, in order, starting '
+               f'from the first configuration', py.where(EXE, fh))
     # the configuration field is written only in __init__ and rewrite_event
     writers = set()
     for mname, mi in py.modules.items():
@@ -369,11 +410,149 @@ def trace_pairs(ctx, py: PyRepo):
            f'trace; a rule event followed by its configuration can start at ANY position, so all adjacent pairs {sorted(want)} have to be '
            f'examined - otherwise rule applications are dropped silently and the module claims only part of the execution',
            py.where(mod, lp), facts={'pairs': sorted(pairs)})
+    # each rule event followed by its configuration yields ONE hint that starts where the previous one ended: on the path on which
+    # both class tests hold, the configuration before the step is what was the configuration after the previous one (bound BEFORE
+    # the new one is converted), the configuration after it is the conversion of the second entry, the rule and the substitution
+    # are those of the event, and the hint built from these four - bound to the constructor's parameters by name - is yielded once
+    from ..core import astpaths as AP
+    tnames = [x.id for x in ast.walk(lp.target) if isinstance(x, ast.Name)]
+    ctx.require(len(tnames) == 2, 'get_proof_hints: the loop does not bind (event, next entry)')
+    E1, E2 = tnames
+    rs_cls = py.find_class('RewriteStepExpression', mod)
+    cparams = [a.arg for a in rs_cls.methods['__init__'].args.args[1:]] if rs_cls is not None and '__init__' in rs_cls.methods else []
+    probs = []
+    hit = 0
+    for sp in AP.paths(lp.body):
+        if sp.end == 'raise' or sp.holds(f'isinstance({E1}, LLVMRuleEvent)') is not True \
+                or any(c_.startswith('isinstance(') and not b_ for c_, b_ in sp.conds):
+            continue
+        hit += 1
+        env = {}
+        order = {}
+        simultaneous = set()
+        for k, a in enumerate(sp.actions):
+            if isinstance(a, ast.Assign) and len(a.targets) == 1 and isinstance(a.targets[0], ast.Name):
+                env[a.targets[0].id] = a.value
+                order[a.targets[0].id] = k
+            elif isinstance(a, ast.Assign) and len(a.targets) == 1 and isinstance(a.targets[0], ast.Tuple) and isinstance(a.value, ast.Tuple) \
+                    and len(a.targets[0].elts) == len(a.value.elts) and all(isinstance(t, ast.Name) for t in a.targets[0].elts):
+                for t, v in zip(a.targets[0].elts, a.value.elts):      # a, b = x, y: both right-hand sides see the old values
+                    env[t.id] = v
+                    order[t.id] = k
+                simultaneous |= {t.id for t in a.targets[0].elts}
+        ys = [x for a in sp.actions for x in ast.walk(a) if isinstance(x, ast.Yield)]
+        if len(ys) != 1:
+            probs.append(f'{len(ys)} hints are yielded for a rule event')
+            continue
+        hv = ys[0].value
+        hv = env.get(hv.id, hv) if isinstance(hv, ast.Name) else hv
+        if not (isinstance(hv, ast.Call) and isinstance(hv.func, ast.Name) and hv.func.id == 'RewriteStepExpression' and len(cparams) == 4):
+            probs.append('what is yielded is not a RewriteStepExpression')
+            continue
+        bound = dict(zip(cparams, hv.args))
+        bound.update({k_.arg: k_.value for k_ in hv.keywords})
+
+        def val(e):
+            e = env.get(e.id, e) if isinstance(e, ast.Name) else e
+            import copy as _cp
+
+            class A(ast.NodeTransformer):               # plain aliases inside the expression (`ordinal = event.rule_ordinal`)
+                def visit_Name(self, n_):
+                    v_ = env.get(n_.id)
+                    return _cp.deepcopy(v_) if isinstance(v_, (ast.Attribute, ast.Name)) and isinstance(n_.ctx, ast.Load) else n_
+            return ast.unparse(A().visit(_cp.deepcopy(e)))
+        before, after = bound.get(cparams[0]), bound.get(cparams[1])
+        b_txt, a_txt = val(before) if before is not None else '', val(after) if after is not None else ''
+        # after: the conversion of the second entry of the pair
+        if not re.fullmatch(rf'\w+\.convert_pattern\({E2}\)', a_txt):
+            probs.append(f'the configuration after the step is `{a_txt[:50]}`, not the conversion of the entry that follows the event')
+        # before: the variable that held the previous "after", copied before it was overwritten
+        if not (isinstance(before, ast.Name) and isinstance(after, ast.Name) and ast.unparse(env.get(before.id, before)) == after.id
+                and (order.get(before.id, 99) < order.get(after.id, -1)
+                     or (order.get(before.id) == order.get(after.id) and {before.id, after.id} <= simultaneous))):
+            probs.append(f'the configuration before the step is `{b_txt[:40]}`: it must be the configuration the previous step reached '
+                         f'(`{after.id if isinstance(after, ast.Name) else "?"}` copied before it is overwritten)')
+        if not re.fullmatch(rf'\w+\.get_axiom\({E1}\.rule_ordinal\)', val(bound.get(cparams[2], ast.Constant(None)))):
+            probs.append('the rule of the hint is not the axiom of the event\'s rule ordinal')
+        if not re.fullmatch(rf'\w+\.convert_substitutions\(dict\({E1}\.substitution\), {E1}\.rule_ordinal\)',
+                            val(bound.get(cparams[3], ast.Constant(None)))):
+            probs.append('the substitution of the hint is not the event\'s substitution converted in the scope of its rule')
+    ctx.ob('rewrite-typestate', 'hint-chains-configurations', hit >= 1 and not probs,
+           'get_proof_hints: ' + '; '.join(sorted(set(probs))) + ' - the generated module would claim steps that do not chain (or not the '
+           'steps of the trace)', py.where(mod, lp))
+
+
+def conversion_keeps_component_order(ctx, py: PyRepo):
+    """The conversion of a Kore connective is the notation of the same name applied to the conversions of its components IN THE
+    CONNECTIVE'S OWN ORDER (sorts first, then operands - `\\rewrites{S}(l, r)` becomes kore_rewrites(S', l', r')): in every arm
+    `case kore.X(c1, .., cn)` of LanguageSemantics._convert_pattern that returns `<notation>(a1, .., am)`, each a_j is
+    `_convert_sort(scope, c)` / `_convert_pattern(scope, c)` of a component c (or of `c[k]` for a component that is a sequence),
+    the components appear in their order of capture (indices ascending), and every captured component is used.  Exchanging the
+    two sides of a rewrite / implication / membership converts every rule to another one."""
+    ci = py.find_class('LanguageSemantics', SEM)
+    fn = ci.methods.get('_convert_pattern') if ci is not None else None
+    ctx.require(fn is not None, 'anchor vanished: LanguageSemantics._convert_pattern')
+    matches = [m for m in ast.walk(fn) if isinstance(m, ast.Match)]
+    ctx.require(len(matches) >= 1, 'LanguageSemantics._convert_pattern: the dispatch over Kore connectives (match) was not found')
+    n = 0
+    for case in [c for m in matches for c in m.cases]:
+        pat = case.pattern
+        if not (isinstance(pat, ast.MatchClass) and pat.patterns and all(isinstance(x, ast.MatchAs) and x.pattern is None for x in pat.patterns)):
+            continue
+        caps = [x.name for x in pat.patterns]
+        env = {a.targets[0].id if isinstance(a, ast.Assign) else a.target.id: a.value for a in case.body
+               if isinstance(a, (ast.Assign, ast.AnnAssign)) and a.value is not None
+               and isinstance(a.targets[0] if isinstance(a, ast.Assign) else a.target, ast.Name)}
+        rets_all = [r for st in case.body for r in ast.walk(st) if isinstance(r, ast.Return) and r.value is not None]
+
+        class _R:                              # `return <call>` or `result = <call>; return result`
+            def __init__(self, r):
+                self.value = env.get(r.value.id, r.value) if isinstance(r.value, ast.Name) else r.value
+                self.lineno, self.col_offset = r.lineno, r.col_offset
+        rets = [_R(r) for r in rets_all]
+        rets = [r for r in rets if isinstance(r.value, ast.Call)]
+        if len(rets) != 1 or len(rets_all) != 1 or any(isinstance(st, (ast.For, ast.While, ast.If, ast.Match)) for st in case.body):
+            continue                          # arms with their own control flow (applications, variables ..) are not of this shape
+        if not (isinstance(rets[0].value.func, ast.Attribute) and rets[0].value.func.attr.startswith('kore_')):
+            continue                          # a binder builds its own notation from the variable's sort: another shape
+        srcs = []
+        ok = True
+        for a in rets[0].value.args:
+            v = env.get(a.id, a) if isinstance(a, ast.Name) else a
+            if isinstance(v, ast.Call) and isinstance(v.func, ast.Attribute) and v.func.attr in ('_convert_sort', '_convert_pattern') and len(v.args) == 2:
+                srcs.append(v.args[1])
+            else:
+                ok = False
+        if not ok or not srcs:
+            continue
+        n += 1
+
+        def key(e):
+            if isinstance(e, ast.Name) and e.id in caps:
+                return (caps.index(e.id), -1)
+            if isinstance(e, ast.Subscript) and isinstance(e.value, ast.Name) and e.value.id in caps and isinstance(e.slice, ast.Constant):
+                return (caps.index(e.value.id), e.slice.value)
+            if isinstance(e, ast.Attribute) and isinstance(e.value, ast.Name) and e.value.id in caps:
+                return (caps.index(e.value.id), -1)
+            return None
+        keys = [key(e) for e in srcs]
+        used = {k[0] for k in keys if k is not None}
+        unused = [c for i, c in enumerate(caps) if c is not None and c != '_' and i not in used]
+        in_order = None not in keys and keys == sorted(keys) and len(set(keys)) == len(keys)
+        cname = ast.unparse(pat.cls)
+        ctx.ob('conversion-order', cname, in_order and not unused,
+               f'{cname}({", ".join(str(c) for c in caps)}) is converted to {ast.unparse(rets[0].value.func)}('
+               + ', '.join(ast.unparse(e) for e in srcs) + '): ' +
+               ('the components are not taken in the connective\'s own order' if not in_order else f'the component(s) {unused} are dropped'),
+               py.where(SEM, rets[0]))
+    ctx.require(n >= 8, 'LanguageSemantics._convert_pattern: fewer than 8 arms of the shape `case kore.X(..): return <notation>(<conversions>)`')
+    ctx.floor('conversion-order', 8)
 
 
 def run(ctx):
     py = PyRepo.get()
     rewrite_event(ctx, py)
+    conversion_keeps_component_order(ctx, py)
     trace_pairs(ctx, py)
     conversion_scope(ctx, py)
     fresh_substitution(ctx, py)
